@@ -22,8 +22,8 @@ func (vOtherErr) Error() string { return "callback failed" }
 func VerifC09Stream() {
 	v := 54460
 	framed := verifChoice("compression", 2) == 1
-	kind := verifChoice("column", 3) // 0: ColUInt64 (zero-copy), 1: ColStr, 2: ColEnum (prepared from its Values on every send)
-	strCol, enumCol := kind == 1, kind == 2
+	kind := verifChoice("column", 4) // 0: ColUInt64 (zero-copy), 1: ColStr, 2: ColEnum, 3: LowCardinality(String) (both prepared from their values on every send)
+	strCol, enumCol, lcCol := kind == 1, kind == 2, kind == 3
 	const enumType = "Enum8('a'=1,'b'=2)"
 	rounds := verifIntRange("rounds", 1, verifParam("maxrounds", 3))
 
@@ -31,11 +31,19 @@ func VerifC09Stream() {
 	u := new(proto.ColUInt64)
 	s := new(proto.ColStr)
 	e := new(proto.ColEnum)
+	lc := new(proto.ColStr).LowCardinality()
+	var ml []string // LowCardinality model
 	var mu []uint64
 	var ms []string
 	var me []byte // enum model: the raw value of each row
 	enumName := [3]string{"", "a", "b"}
 	appendRow := func() {
+		if lcCol {
+			x := enumName[1+verifChoice("lcell", 2)]
+			lc.Append(x)
+			ml = append(ml, x)
+			return
+		}
 		if enumCol {
 			x := byte(1 + verifChoice("ecell", 2))
 			e.Append(enumName[x])
@@ -51,6 +59,9 @@ func VerifC09Stream() {
 		}
 	}
 	snapshot := func() rCol {
+		if lcCol {
+			return rCol{name: "a", typ: "LowCardinality(String)", lc: true, strs: append([]string(nil), ml...)}
+		}
 		if enumCol {
 			return rCol{name: "a", typ: enumType, useRaw: true, n: len(me), raw: append([]byte(nil), me...)}
 		}
@@ -60,6 +71,9 @@ func VerifC09Stream() {
 		return rCol{name: "a", typ: "UInt64", u64: append([]uint64(nil), mu...)}
 	}
 	rowsNow := func() int {
+		if lcCol {
+			return len(ml)
+		}
 		if enumCol {
 			return len(me)
 		}
@@ -88,7 +102,9 @@ func VerifC09Stream() {
 	round := 0
 	failed := false
 	q := Query{Body: "INSERT INTO t VALUES", QueryID: "q1"}
-	if enumCol {
+	if lcCol {
+		q.Input = proto.Input{{Name: "a", Data: lc}}
+	} else if enumCol {
 		q.Input = proto.Input{{Name: "a", Data: e}}
 	} else if strCol {
 		q.Input = proto.Input{{Name: "a", Data: s}}
@@ -109,11 +125,15 @@ func VerifC09Stream() {
 			appendRow()
 		case 1: // reset, then one new row
 			q.Input.Reset()
-			mu, ms, me = nil, nil, nil
+			mu, ms, me, ml = nil, nil, nil, nil
 			appendRow()
 		case 2: // overwrite row 0 in place (zero-copy columns alias this memory until flushed)
 			if rowsNow() > 0 {
-				if enumCol {
+				if lcCol {
+					x := enumName[1+verifChoice("lcell", 2)]
+					lc.Values[0] = x
+					ml[0] = x
+				} else if enumCol {
 					x := byte(1 + verifChoice("ecell", 2))
 					e.Values[0] = enumName[x]
 					me[0] = x
@@ -129,7 +149,7 @@ func VerifC09Stream() {
 			}
 		case 3: // reset to nothing
 			q.Input.Reset()
-			mu, ms, me = nil, nil, nil
+			mu, ms, me, ml = nil, nil, nil, nil
 		}
 		switch h.result {
 		case 1:
